@@ -31,6 +31,10 @@ package internal
 //@   site#args NewInterface: $0 == typ.Obj().Name() && $1 == file && $2 == fileSyntax && $3 == pkg && $4 == nil
 //@   assigns p.conf, fresh
 //@   ensures#pkgs err == nil ==> (forall k int :: 0 <= k && k < len(result) ==> result[k] != nil && fresh(result[k]) && len(result[k].Pkg.GoFiles) > 0 && result[k].Config == nil)
+// "A package that fails to load or type-check produces a non-zero exit" (C09), stated without looking
+// at GoFiles. NOT satisfied by the code (known finding D17): a package that packages.Load reports with
+// errors and without Go files (e.g. a path that does not exist) is skipped before its errors are looked at.
+//@   returns#allerrors[C09] err == nil ==> (forall j int :: 0 <= j && j < len(packages) ==> len(packages[j].Errors) == 0)
 //@   returns#loaderrors err == nil ==> (forall j int :: 0 <= j && j < len(packages) && len(packages[j].GoFiles) != 0 ==> len(packages[j].Errors) == 0)
 //@   loop 0: invariant forall j int :: 0 <= j && j < $i && len(packages[j].GoFiles) != 0 ==> len(packages[j].Errors) == 0
 //@   loop 0: invariant#pkgs forall k int :: 0 <= k && k < len(interfaces) ==> interfaces[k] != nil && fresh(interfaces[k]) && len(interfaces[k].Pkg.GoFiles) > 0 && interfaces[k].Config == nil
